@@ -20,7 +20,7 @@ func init() {
 	Register(&PropDef{ID: "C13", Run: c13, MaxSim: 6 * time.Hour, PanicIsViolation: true})
 }
 
-var c13causes = []string{"peer-eof", "peer-reset", "read-error", "write-error", "short-write", "peer-stops-reading", "local-close", "handler-stop", "acceptor-listener-error"}
+var c13causes = []string{"peer-eof", "peer-reset", "read-error", "write-error", "short-write", "peer-stops-reading", "local-close", "handler-stop", "acceptor-listener-error", "undecodable-message"}
 var c13points = []string{"before-logon", "inside-logon", "logged-idle", "mid-traffic", "mid-traffic", "during-logout"}
 
 // stacks returns goid -> library function names (innermost first) of every goroutine.
@@ -83,6 +83,9 @@ func c13(w *World) {
 	cause := c13causes[w.F.Draw(len(c13causes))]
 	if cause == "acceptor-listener-error" && role != "acceptor" {
 		cause = "local-close"
+	}
+	if cause == "undecodable-message" && point == "inside-logon" {
+		point = "before-logon" // glued to a half-delivered Logon the message would be part of that Logon
 	}
 	w.Cfg("role", role)
 	w.Cfg("buf", buf)
@@ -176,7 +179,7 @@ func c13(w *World) {
 	if w.F.Chance(1, 3) {
 		simrt.Sleep(time.Duration(w.F.Draw(1500)) * time.Millisecond)
 	}
-	if point == "mid-traffic" && w.F.Chance(1, 2) {
+	if point == "mid-traffic" && cause != "undecodable-message" && w.F.Chance(1, 2) {
 		// a message cut in the middle at the moment of the cause
 		m := sc.Msg("D", F(11, "cut"), F(58, strings.Repeat("c", 50)))
 		sc.P.Send(m[:1+w.F.Draw(len(m)-1)])
@@ -218,6 +221,11 @@ func c13(w *World) {
 	case "acceptor-listener-error":
 		localInitiated = true
 		sc.Acc.L.FailAccept(&net.OpError{Op: "accept", Net: "sim", Err: syscall.EMFILE})
+	case "undecodable-message":
+		// a correctly framed message without a MsgType ends the handler loop with an error: one more
+		// way a connection can end (the statement's list does not name it, so no notification is demanded)
+		sc.P.Send(Build([]Field{F(TagSenderCompID, sc.PeerID), F(TagTargetCompID, sc.LibID), FI(TagMsgSeqNum, sc.NextSeq()), F(58, "no type")}, WireOpts{}))
+		w.Fault("undecodable_message")
 	}
 	w.Logf("cause", "%s at %s (%s)", cause, point, role)
 	// write-path causes need the library to write: traffic or heartbeats do that within N
@@ -258,7 +266,7 @@ func c13(w *World) {
 		w.Violate("serve-not-returned", key, fmt.Sprintf("Acceptor.ListenAndServe has not returned %v after %s", S, cause))
 	}
 	// (3) the side that did not initiate the termination is notified
-	if !localInitiated {
+	if !localInitiated && cause != "undecodable-message" {
 		n := 0
 		if role == "acceptor" {
 			a := sc.Acc.Sess[0]
